@@ -119,7 +119,7 @@ Fixpoint split_loop (fuel : nat) (b o : tx) : option (list post) :=
       else Some []
   end.
 
-Definition split_fuel (b o : tx) : nat := Z.to_nat ((tx_t o - tx_t b) / day_secs + 2).
+Definition split_fuel (b o : tx) : nat := (Z.to_nat ((tx_t o - tx_t b) / day_secs) + 2)%nat.
 Definition day_pieces (b o : tx) : option (list post) := split_loop (split_fuel b o) b o.
 
 (* timelog.cc:113-158 once the check-in `e` is chosen (the is_not_a_date_time tests cannot fire:
@@ -150,13 +150,13 @@ Definition clock_out (day_break : bool) (open : list tx) (o : tx) : list tx * ou
   end.
 
 Inductive event : Type :=
-| In (e : tx)
-| Out (o : tx).
+| CheckIn (e : tx)
+| CheckOut (o : tx).
 
 Definition step (day_break : bool) (open : list tx) (ev : event) : list tx * outcome :=
   match ev with
-  | In e => clock_in open e
-  | Out o => clock_out day_break open o
+  | CheckIn e => clock_in open e
+  | CheckOut o => clock_out day_break open o
   end.
 
 (* instance_t::parse: every line is processed, an error is counted and parsing goes on *)
